@@ -372,6 +372,19 @@ def clauseAssign (b : State) (op : Op) (out : Out) (a : State) : Bool :=
            (b.lists j) i))
   | _ => true
 
+
+/-- clause `owner_forwards` for `setParameterValue(name, value)` of the owner: on success the
+notification carries one fresh object, a copy of the updated parameter `prefix + name` -/
+def clauseNotify (b : State) (op : Op) (out : Out) (fired : Option (List ObjId)) (a : State) : Bool :=
+  match op with
+  | .apSetValue k n _ =>
+    if out.isErr then fired == none
+    else
+      match fired, find? b.heap (b.lists k) (b.pre k ++ n) with
+      | some [i], some t => decide (b.heap.next ≤ i) && a.heap.get i == a.heap.get t
+      | _, _ => false
+  | _ => true
+
 /-- all clauses; `none` = every clause holds, `some c` = clause `c` is false -/
 def checkStep (n : Nat) (b : State) (op : Op) (out : Out) (fired : Option (List ObjId)) (a : State) :
     Option String :=
@@ -390,6 +403,7 @@ def checkStep (n : Nat) (b : State) (op : Op) (out : Out) (fired : Option (List 
   else if !clauseDeleteNames b op out a then some "delete_names_exact"
   else if !clauseMerge b op out a then some "include_share_add_all"
   else if !clauseAssign b op out a then some "whole_parameter_assignment"
+  else if !clauseNotify b op out fired a then some "owner_forwards"
   else none
 
 end Bpp.ParamList
